@@ -144,6 +144,8 @@ def gen_source(rng, n):
 
 
 def mismatch(src, exp, r):
+    if r.get('status') in ('timeout', 'build-failed', 'unknown'):
+        return None    # inconclusive run: never a mismatch
     if r.get('status') != 'ok':
         return 'lexer %s: %s' % (r.get('status'), r.get('detail'))
     got = [x for x in (r['result'].get('toks') or '').split('|') if x]
